@@ -10,6 +10,7 @@ import (
 	"os"
 	"path/filepath"
 	"sort"
+	"strconv"
 	"strings"
 	"sync"
 )
@@ -65,12 +66,19 @@ func NewRecorder(prop string, shard int, tier string, seed uint64, known map[str
 		res:     ShardResult{Prop: prop, Shard: shard, Counters: map[string]int64{}, Known: map[string]int64{}, KnownExample: map[string]string{}},
 		hashes:  map[uint64]struct{}{},
 		known:   known,
-		maxViol: 3,
+		maxViol: envInt("VERIF_MAX_VIOL", 3),
 		maxSamp: 3,
 		Tier:    tier,
 		Seed:    seed,
 		dir:     replayDir,
 	}
+}
+
+func envInt(name string, def int) int {
+	if v, err := strconv.Atoi(os.Getenv(name)); err == nil && v > 0 {
+		return v
+	}
+	return def
 }
 
 // At notes which case is running (for violations raised without coordinates).
